@@ -273,5 +273,77 @@ class StatefulUse(Family):
         return 'ok', True, n * len(HTS12)
 
 
+class ShortLivedAndErrors(Family):
+    """(a) a run of different immutable transactions that live only for one call (built or deserialised inside the call
+    expression, dropped at once, so that the next one is likely to occupy the same memory): every digest is that of the
+    transaction's own fields; (b) runs of calls in the two error cases (input index out of range, SIGHASH_SINGLE without a
+    matching output) interleaved with ordinary calls, through both entry points: RawSignatureHash returns the constant
+    and an error every time, SignatureHash raises ValueError every time"""
+    name = 'short_lived_transactions_and_error_runs'
+    nontrivial_rule = 'every case'
+
+    def cases(self, shard, tier):
+        for si in (1, 3, 13):
+            for ht in (0x01, 0x03, 0x82):
+                for how in ('ctor', 'deser'):
+                    yield ('short', si, ht, how)
+        for order in itertools.product('SRG', repeat=3):
+            yield ('errors', ''.join(order), 0, '')
+
+    def check(self, case):
+        from bitcoin.core import CTransaction
+        from bitcoin.core.script import RawSignatureHash, SignatureHash, SIGVERSION_BASE, CScript
+        kind, a, ht, how = case
+        if kind == 'short':
+            script = SCRIPTS[a]
+            cs = CScript(script)
+            for i in range(40):
+                m = C.default_tx(1 + i % 3, 1 + i % 3)
+                m['locktime'] = 1000 + i
+                m['vin'][0]['seq'] = i
+                want, werr = SH.legacy(script, m, 0, ht)
+                if how == 'ctor':
+                    got = SignatureHash(cs, C.lib_tx(m), 0, ht, sigversion=SIGVERSION_BASE)
+                    got2 = RawSignatureHash(cs, C.lib_tx(m), 0, ht)[0]
+                else:
+                    got = SignatureHash(cs, CTransaction.deserialize(W.encode_tx(m)), 0, ht, sigversion=SIGVERSION_BASE)
+                    got2 = RawSignatureHash(cs, CTransaction.deserialize(W.encode_tx(m)), 0, ht)[0]
+                if got != want or got2 != want:
+                    raise Viol('transaction #%d of a run of short-lived transactions (%s, hashtype=%#04x): digest is not that of its own fields' % (i, how, ht), want.hex(), bytes(got).hex())
+            return 'short', True, 80
+        # error runs: S = SignatureHash in an error case, R = RawSignatureHash in an error case, G = a good call of each
+        m = C.default_tx(2, 1)
+        tx = C.lib_tx(m)
+        cs = CScript(SCRIPTS[3])
+        n = 0
+        for rep in (0, 1):
+            for step in a:
+                for idx, h in ((2, 1), (1, 3)):          # index out of range; SINGLE without a matching output
+                    want, werr = SH.legacy(SCRIPTS[3], m, idx, h)
+                    if not werr:
+                        raise HarnessError('error case expected')
+                    n += 1
+                    if step == 'S':
+                        try:
+                            r = SignatureHash(cs, tx, idx, h, sigversion=SIGVERSION_BASE)
+                        except ValueError:
+                            continue
+                        except Exception as e:  # noqa
+                            raise Viol('SignatureHash in an error case (idx=%d, hashtype=%d), run %r: raised %s instead of ValueError' % (idx, h, a, type(e).__name__), 'ValueError', '%s: %s' % (type(e).__name__, e))
+                        raise Viol('SignatureHash in an error case returned a digest (run %r)' % a, 'ValueError', bytes(r).hex())
+                    elif step == 'R':
+                        try:
+                            r = RawSignatureHash(cs, tx, idx, h)
+                        except Exception as e:  # noqa
+                            raise Viol('RawSignatureHash in an error case (idx=%d, hashtype=%d), run %r: raised %s' % (idx, h, a, type(e).__name__), '(constant 1, error)', '%s: %s' % (type(e).__name__, e))
+                        if r[0] != want or r[1] is None:
+                            raise Viol('RawSignatureHash in an error case (run %r)' % a, (want.hex(), 'error'), (bytes(r[0]).hex(), r[1]))
+                    else:
+                        w2, _ = SH.legacy(SCRIPTS[3], m, 0, 1)
+                        if SignatureHash(cs, tx, 0, 1, sigversion=SIGVERSION_BASE) != w2 or RawSignatureHash(cs, tx, 0, 1) != (w2, None):
+                            raise Viol('ordinary call inside an error run %r' % a, w2.hex(), None)
+        return 'errors', True, n
+
+
 def families(tier):
-    return [Legacy(), ManyInputs(), HugePush(), StatefulUse()]
+    return [Legacy(), ManyInputs(), HugePush(), StatefulUse(), ShortLivedAndErrors()]
